@@ -1,6 +1,7 @@
 """C13 - HMAC equals RFC 2104 for every hash of the library with a block size, key length and message."""
 import hmac as pyhmac
 from mc.engine import Sub, HSystem, hsub, InternalError
+from mc.checks.firstuse import firstuse_sub
 from mc.common import ramp, expander
 from mc.checks import hashfam as H0
 
@@ -151,8 +152,21 @@ def selftest():
         raise InternalError('reference self-test failed: %r' % (e,))
 
 
+PROP_ = 'C13'
+
+
+def fu_targets():
+    from crysp.hmac import HMAC
+    m = expander(150, 3)
+    t = {}
+    for a in ('md5', 'sha0', 'sha256', 'sha512_224', 'sha384', 'blake224', 'blake512', 'blake2s', 'blake2b'):
+        for kn, key in (('short', b'key'), ('long', expander(H.blocklen(a) + 9, 3))):
+            t['%s %s-key' % (a, kn)] = ((lambda a, key: lambda: HMAC(H.make(a), key)(m))(a, key), rfc2104(a, key, m))
+    return t
+
+
 def subchecks():
-    return [
+    return [firstuse_sub(PROP_, fu_targets, every=2),
         Sub('key-lengths', pts_keys, run_keys, engine='P',
             bound='17 hashes (MD4, MD5, SHA-0, SHA-1, SHA-224/256/384/512, SHA-512/224, SHA-512/256, BLAKE-224/256/384/512, BLAKE2s, BLAKE2b, MD6-256: every hash class with a block size) x every key length 0..3 blocks (quick: 17 lengths around 0, the digest size, 1, 2 and 3 blocks) x 2 key patterns x 4 messages (empty, 3 bytes, one block, one block+1; 5 blocks-1 at 5 key lengths)'),
         hsub('setkey-histories', systems, lambda tier: 3 if tier == 'quick' else 4, split=lambda tier: 4 if tier == 'quick' else 16,
